@@ -164,7 +164,7 @@ def def_schema_ok(doc: dict, name: str) -> bool:
 def_schema_ok._symx_native = True
 
 
-@lemma("C03", bounds="packages of 0..2 modules from the 7 program templates and 0..2 extensions (type defs with explicit / from-params bounds, polymorphic "
+@lemma("C03", bounds="packages of 0..2 modules from the 8 program templates and 0..2 extensions (type defs with explicit / from-params bounds, polymorphic "
                      "and binary op defs, values); the std extensions bundled with the package",
        outside="extensions with lowering functions")
 def packages_and_extensions_validate():
